@@ -300,3 +300,53 @@ Definition upd1 (I0 : interp) (sc : bool) (kv : expr * expr) (I : interp) : inte
 
 Definition updated (sc : bool) (s : smap) (I : interp) : interp :=
   fold_right (upd1 I sc) I s.
+
+(* ---- when does an expression not read anything the update changes?  (purely syntactic, decidable) ---- *)
+Definition key_par (s : smap) (q : N) : bool :=
+  existsb (fun kv => match fst kv with EParam p => (p =? q)%N | _ => false end) s.
+Definition key_var (s : smap) (x : N) : bool :=
+  existsb (fun kv => match fst kv with EVar y _ => (y =? x)%N | _ => false end) s.
+Definition key_fl (s : smap) (g : N) (ws : list value) : bool :=
+  existsb (fun kv => match fst kv with
+                     | EFluent f args => match ground_args args with
+                                         | Some us => (f =? g)%N && values_eqb ws us
+                                         | None => false
+                                         end
+                     | _ => false
+                     end) s.
+Definition key_fsym (s : smap) (g : N) : bool :=
+  existsb (fun kv => match fst kv with EFluent f _ => (f =? g)%N | _ => false end) s.
+
+(* no parameter / variable / ground fluent that is a key of [s] is read by [e] (a non-ground application of a key's
+   fluent symbol counts as a possible read; so does any occurrence of a key variable, even a bound one) *)
+Fixpoint unread (s : smap) (e : expr) {struct e} : bool :=
+  match e with
+  | EBool _ | EInt _ | EReal _ | EObj _ => true
+  | EParam q => negb (key_par s q)
+  | EVar x _ => negb (key_var s x)
+  | EFluent g args =>
+      forallb (unread s) args &&
+      match ground_args args with
+      | Some ws => negb (key_fl s g ws)
+      | None => negb (key_fsym s g)
+      end
+  | EIFun _ l | EAnd l | EOr l | EPlus l | ETimes l => forallb (unread s) l
+  | ENot a | EAlways a | ESometime a | EAtMostOnce a | EExists _ a | EForall _ a => unread s a
+  | EImplies a b | EIff a b | EMinus a b | EDiv a b | ELe a b | ELt a b | EEquals a b
+  | ESometimeBefore a b | ESometimeAfter a b => unread s a && unread s b
+  end.
+
+(* the keys are leaves and pairwise update different entries of the interpretation *)
+Definition key_same (k : expr) (s : smap) : bool :=
+  match k with
+  | EParam p => key_par s p
+  | EVar x _ => key_var s x
+  | EFluent f args => match ground_args args with Some ws => key_fl s f ws | None => true end
+  | _ => true
+  end.
+
+Fixpoint keys_ok (s : smap) : bool :=
+  match s with
+  | [] => true
+  | (k, _) :: s' => leaf_key k && negb (key_same k s') && keys_ok s'
+  end.
